@@ -8,7 +8,9 @@ class C03(Prop):
     title = "NGAP messages are encoded exactly as X.691 aligned PER / TS 38.413 prescribe"
     lean_module = "Stgutg.Props.C03"
     gen = ["schema", "registry"]
-    theorems = []
+    theorems = [
+        "Stgutg.Props.C03.tags_are_ts38413", "Stgutg.Props.C03.table_names_distinct",
+    ]
     domains = [Domain("aper-enc", 600, 30000)]
     rule = ("aper-enc: type-directed random values over the real ngapType structs (all message types through NGAPPDU's open types, "
             "transfer containers, every leaf wrapper type at lb, ub, lb+1, ub-1 and power-of-two boundaries), one in eight with exactly one "
